@@ -772,6 +772,16 @@ fn to_list(ctx: &Context, top: &Number, list: &[&str]) -> Result<Vec<NumberParts
             ))));
         }
     }
+    if let Some((name, _)) = list
+        .iter()
+        .zip(units.iter())
+        .find(|(_, unit)| unit.value == Numeric::zero())
+    {
+        return Err(QueryError::generic(format!(
+            "Division by zero: unit list entry <{}> is zero",
+            name
+        )));
+    }
     let mut value = top.value.clone();
     let mut out = vec![];
     let len = units.len();
